@@ -130,3 +130,103 @@ def do_ioctl_text(req):
 
 HANDLERS.update({'enum_iter': do_enum_iter, 'enum_value': do_enum_value, 'flags': do_flags,
                  'decoder_field_names': do_decoder_field_names, 'ioctl_text': do_ioctl_text})
+
+
+# ------------------------------------------------------------------------------ C20 bounded search / replay
+def _composite_eval(name, evspec):
+    """run the real decoder on a concrete window; compare with spec/composite.py. returns (violates, what, info)"""
+    from pyvc import native_decoders as nd
+    from spec import composite as S
+    codes = dict(nd._codes())
+    req = {'name': name, 'tid': 7, 'events': evspec, 'parser': {}}
+    evs = nd.build_events(req, codes)
+    p = nd.make_parser(req, codes)
+    try:
+        r = p.handlers[name](p, evs)
+    except BaseException as e:  # noqa
+        return True, 'decoder raised %s: %s' % (type(e).__name__, e), {}
+    if name == 'MACH_vmfault':
+        from pykdebugparser.trace_handlers import mach
+        decodable = set(k for k in p.handlers if k.startswith('RealFaultAddress'))
+        res, ft, has, nested = S.vmfault_expected(evs, codes, decodable)
+        info = {'result': r.result, 'fault_type': getattr(r.fault_type, 'value', None), 'pid': r.pid}
+        if r.result != res:
+            return True, 'result %r, END record says %r' % (r.result, res), info
+        if (r.fault_type.value if r.fault_type is not None else None) != ft:
+            return True, 'fault type %r, END record says %r' % (r.fault_type, ft), info
+        if has != (r.pid is not None):
+            return True, 'pid/protection %s although %s' % ('shown' if r.pid is not None else 'omitted',
+                                                            'a decodable nested record exists' if has else 'there is none'), info
+        if has:
+            exp = p.handlers[codes[nested.eventid]](p, [nested])
+            if (r.pid, r.caller_prot) != (exp.pid, exp.caller_prot):
+                return True, 'pid/protection %r are not those of the first nested record %r' % ((r.pid, r.caller_prot), (exp.pid, exp.caller_prot)), info
+        return False, '', info
+    if name == 'DBG_DYLD_TIMING_LAUNCH_EXECUTABLE':
+        exp = S.launch_expected(evs, codes)
+        got = [m.load_addr for m in r.uuid_map_a]
+        return got != exp, 'listed load addresses %r, expected %r' % (got, exp), {'got': got}
+    if name == 'PERF_Event':
+        has_th, frames = S.sampler_expected(evs, codes)
+        info = {'th_info': r.th_info is not None, 'cs_frames': r.cs_frames}
+        if has_th != (r.th_info is not None):
+            return True, 'thread info %s, expected %s' % ('present' if r.th_info is not None else 'absent', 'present' if has_th else 'absent'), info
+        if frames != (list(r.cs_frames) if r.cs_frames is not None else None):
+            return True, 'user stack %r, expected %r' % (r.cs_frames, frames), info
+        if (r.cs_flags is None) != (frames is None):
+            return True, 'callstack flags without frames (or vice versa)', info
+        return False, '', info
+    return False, '', {}
+
+
+def do_composite_case(req):
+    v, what, info = _composite_eval(req['name'], req['events'])
+    return {'violates': v, 'what': what, 'observed': info}
+
+
+def do_composite_search(req):
+    import itertools
+    import random
+    name = req['name']
+    rnd = random.Random(req.get('seed', 0))
+    budget = req.get('budget', 500)
+
+    def ev(code, vals, q=0):
+        return {'code_name': code, 'values': list(vals), 'qual': q}
+    if name == 'MACH_vmfault':
+        palette = [ev('RealFaultAddressInternal', [0x1000, (41 << 16) | (3 << 8) | 2, 5, 6]),
+                   ev('RealFaultAddressExternal', [0x2000, (42 << 16) | (1 << 8) | 3, 7, 8]),
+                   ev('RealFaultAddressPurgeable', [0x3000, (43 << 16) | (1 << 8) | 1, 0, 0]),
+                   ev('RealFaultAddressSharedCache', [0x4000, (44 << 16) | (5 << 8) | 4, 0, 0]),
+                   ev('MACH_sched', [0, 0, 0, 0]), ev('VFS_LOOKUP', [1, 2, 3, 4], 3)]
+        heads = [([0x10, 0x20, 0, 0], [0, 0, r, ft]) for r in (0, 1) for ft in (1, 2)]
+    elif name == 'DBG_DYLD_TIMING_LAUNCH_EXECUTABLE':
+        palette = [ev('DYLD_uuid_map_a', [1, 2, 0x5000, 1]), ev('DYLD_uuid_map_a', [3, 4, 0x1000, 1]),
+                   ev('DYLD_uuid_shared_cache_a', [5, 6, 0x3000, 2]), ev('DYLD_uuid_shared_cache_a', [7, 8, 0x9000, 2]),
+                   ev('DYLD_uuid_map_b', [1, 1, 1, 1]), ev('VFS_LOOKUP', [1, 2, 3, 4], 3)]
+        heads = [([0, 0x100000, 0, 0], [0, 0, 0, 0])]
+    else:
+        palette = [ev('PERF_THD_Data', [11, 12, 13, 1]), ev('PERF_STK_UHdr', [1, 3, 0, 0]), ev('PERF_STK_UHdr', [1, 6, 0, 0]),
+                   ev('PERF_STK_UData', [0xa1, 0xa2, 0xa3, 0xa4]), ev('PERF_STK_UData', [0xb1, 0xb2, 0xb3, 0xb4]),
+                   ev('MACH_sched', [0, 0, 0, 0])]
+        heads = [([fl, 9, 0, 0], [0, 0, 0, 0]) for fl in (0, 1, 8, 9, 0x0b)]
+    tried = 0
+    cases = []
+    for n in range(0, 4):
+        for mid in itertools.product(range(len(palette)), repeat=n):
+            for h in heads:
+                cases.append((h, mid))
+    rnd.shuffle(cases)
+    cases.sort(key=lambda c: len(c[1]))
+    for (sv, evv), mid in cases[:budget]:
+        evspec = [dict(ev(name, sv, 1))] + [dict(palette[i]) for i in mid] + [dict(ev(name, evv, 2))]
+        tried += 1
+        v, what, info = _composite_eval(name, evspec)
+        if v:
+            return {'tried': tried, 'bound': 'windows with <= 3 nested records over a palette of %d record kinds' % len(palette),
+                    'found': {'request': {'kind': 'composite_case', 'name': name, 'events': evspec}, 'what': what, 'observed': info,
+                              'violates': True}}
+    return {'tried': tried, 'bound': 'windows with <= 3 nested records over a palette of %d record kinds' % len(palette), 'found': None}
+
+
+HANDLERS.update({'composite_case': do_composite_case, 'composite_search': do_composite_search})
